@@ -40,6 +40,7 @@ type vacPeers struct {
 	n      int
 	r      *rand.Rand
 	min    int64 // storage minimum of the acceptor (for out-of-window chunks)
+	spin   chan struct{} // closed when the current Accept has sent more requests than any healthy Accept can
 }
 
 func (*vacPeers) AppGossip(context.Context, ids.NodeID, []byte) {}
@@ -71,8 +72,10 @@ func (p *vacPeers) AppRequest(_ context.Context, _ ids.NodeID, _ time.Time, requ
 		kind, p.script = p.script[0], p.script[1:]
 	}
 	p.n++
-	if p.n <= 60 { // a spinning Accept would log for ever; a healthy one sends at most script+certs requests
+	if p.n <= 60 { // a spinning Accept would log for ever; a healthy one sends at most script+certs (<= 7) requests
 		p.log.add(map[string]any{"ev": "req", "n": p.n, "want": want, "kind": kind})
+	} else if p.n == 61 && p.spin != nil {
+		close(p.spin)
 	}
 	orig, ok := p.chunks[want]
 	if !ok {
@@ -223,10 +226,12 @@ func TestVerifAcceptRecord(t *testing.T) {
 			peers.script = append([]string{}, script...)
 			peers.n = 0
 			peers.min = parent.Timestamp
+			peers.spin = make(chan struct{})
+			spin := peers.spin
 			peers.mu.Unlock()
 			blk := vnMakeBlock(t, parent, parent.Height+1, ts, certs)
 			log.add(map[string]any{"ev": "accept_call", "b": vnName("b", b), "ts": ts, "certs": names, "prods": prods, "script": script})
-			eb, err, returned := vnAccept(a.node, blk, watchdog)
+			eb, err, returned := vnAcceptAbort(a.node, blk, watchdog, spin)
 			if !returned {
 				// "no hang" is not decided by the clock alone: recorded; the check replays this scenario alone before it
 				// reports.  The abandoned Accept keeps spinning, so no further scenario is recorded in this process.
@@ -234,7 +239,7 @@ func TestVerifAcceptRecord(t *testing.T) {
 				served := peers.n
 				peers.mu.Unlock()
 				log.add(map[string]any{"ev": "accept_ret", "b": vnName("b", b), "res": "hang",
-					"err": "no return within the watchdog although the valid chunk was served", "chunks": []string{}, "requests": served})
+					"err": "no return (watchdog, or more than 60 requests) although the valid chunk was served", "chunks": []string{}, "requests": served})
 				hung = true
 				break
 			}
